@@ -301,7 +301,10 @@ int main(int argc, char **argv) {
     os << ",\"params\":[";
     for (Argument &a : F.args()) {
       if (a.getArgNo()) os << ",";
-      os << "{\"ty\":" << q(tyStr(a.getType())) << ",\"bits\":" << bitsOf(a.getType(), DL) << "}";
+      os << "{\"ty\":" << q(tyStr(a.getType())) << ",\"bits\":" << bitsOf(a.getType(), DL);
+      if (a.hasByValAttr()) os << ",\"byval\":" << DL.getTypeAllocSize(a.getParamByValType()).getFixedSize() << ",\"byval_ty\":" << q(tyStr(a.getParamByValType()));
+      if (a.hasStructRetAttr()) os << ",\"sret\":true";
+      os << "}";
     }
     os << "]";
     if (F.isDeclaration()) { os << "}"; continue; }
@@ -385,6 +388,14 @@ int main(int argc, char **argv) {
             if (k) s += ",";
             s += "[" + valref(phi->getIncomingValue(k), cx) + "," + std::to_string(cx.bbid[phi->getIncomingBlock(k)]) + "]";
           }
+          s += "]";
+        } else if (auto *ev = dyn_cast<ExtractValueInst>(&I)) {
+          s += ",\"indices\":[";
+          for (unsigned k = 0; k < ev->getNumIndices(); k++) { if (k) s += ","; s += std::to_string(ev->getIndices()[k]); }
+          s += "]";
+        } else if (auto *iv = dyn_cast<InsertValueInst>(&I)) {
+          s += ",\"indices\":[";
+          for (unsigned k = 0; k < iv->getNumIndices(); k++) { if (k) s += ","; s += std::to_string(iv->getIndices()[k]); }
           s += "]";
         } else if (auto *sw = dyn_cast<SwitchInst>(&I)) {
           s += ",\"default\":" + std::to_string(cx.bbid[sw->getDefaultDest()]) + ",\"cases\":[";
